@@ -165,6 +165,50 @@ SWEEPS = [
 ]
 
 
+def strop_case(text, op, fin, entry, short, trace):
+    """A str payload with an opcode other than TEXT (binary / continuation frames, e.g. the continuation of a fragmented text message
+    as in the send_frame docstring). Which encoding the library picks for it is not specified; what the property still says is: the bytes
+    written for one call are exactly one well-formed frame (or the call raises and nothing is written), and the count returned is theirs."""
+    lib.reset_globals()
+    env.install_urandom("real")
+    lib.set_trace(trace)
+    try:
+        sock = env.ScriptSock(b"")
+        if short:
+            sock.send_menu = lambda s_, d_: [max(1, len(d_) // 2)]
+        ws = env.make_ws(sock)
+        sig0 = {"entry": entry, "op": op, "kind": "str-with-nontext-opcode"}
+        label = "%s(%r..., opcode=%d, fin=%d)%s" % (entry, text[:12], op, fin, " [short writes]" if short else "")
+        try:
+            if entry == "send":
+                ret = ws.send(text, op)
+            else:
+                ret = ws.send_frame(lib.websocket.ABNF.create_frame(text, op, fin))
+        except (UnicodeError, TypeError, ValueError, lib.websocket.WebSocketException) as e:
+            if sock.written:
+                return (dict(sig0, how="raised-after-writing"), "%s raised %s after %d bytes had been written" % (label, type(e).__name__, len(sock.written)))
+            return None
+        wire = bytes(sock.written)
+        frames, rest = R.decode_all(wire)
+        if len(frames) != 1 or rest:
+            return (dict(sig0, how="not-one-frame"), "%s wrote %d bytes that decode to %d frame(s) + %d stray bytes" % (label, len(wire), len(frames), len(rest)))
+        f = frames[0]
+        probs = R.check_client_frame(f)
+        if probs or f.opcode != op:
+            return (dict(sig0, how="malformed"), "%s: %s, opcode %d" % (label, probs, f.opcode))
+        if f.payload not in (text.encode("utf-8"), text.encode("latin-1", "replace") if all(ord(c) < 256 for c in text) else None):
+            return (dict(sig0, how="payload"), "%s: payload on the wire %.40r is neither the UTF-8 nor the Latin-1 encoding of the text" % (label, f.payload))
+        if ret != len(wire):
+            return (dict(sig0, how="return-value"), "%s returned %r, %d bytes were written" % (label, ret, len(wire)))
+        return None
+    finally:
+        lib.set_trace(False)
+        env.uninstall_urandom()
+
+
+STROP_TEXTS = ["", "a", "plain ascii", "na\u00efve caf\u00e9", "\u00e9", "\u00ff" * 125, "\u00e9" * 126, "\u20acuro", "\u65e5\u672c\u8a9e", "\U0001f600", "a" * 125 + "\u00e9", "x" * 70000 + "\u00e9"]
+
+
 def tasks(tier, seed):
     ts = []
     if tier == "thorough":
@@ -182,6 +226,7 @@ def tasks(tier, seed):
     for hi in range(0, 256, 16):
         ts.append({"part": "bytes2", "lo": hi, "hi": hi + 16, "seed": seed, "name": "bytes2/%d" % hi})
     ts.append({"part": "unicode", "seed": seed, "name": "unicode"})
+    ts.append({"part": "strop", "seed": seed, "name": "strop"})
     ts.append({"part": "resend", "seed": seed, "name": "resend"})
     ts.append({"part": "beyond", "seed": seed, "name": "beyond"})
     return ts
@@ -299,6 +344,29 @@ def run_task(desc):
                                         for cfg in ("nomt", "timeout", "nomt+timeout", "short7", "shorthalf", "nomt+shorthalf"):
                                             run(dict(mk(entry, op, fin, ptype, keysrc, trace, n, ck, via_ctor=(n % 2 == 0)), cfg=cfg))
         res["samples"].append({"entry": entry, "opcode": op, "boundary_lengths": BOUNDARY[:12]})
+    elif part == "strop":
+        for ti, text in enumerate(STROP_TEXTS):
+            for op in (R.BINARY, R.CONT):
+                for fin in (1, 0):
+                    for entry in ("send", "send_frame"):
+                        if entry == "send" and fin == 0:
+                            continue
+                        for short in (False, True):
+                            for trace in (False, True):
+                                args = [ti, op, fin, entry, short, trace]
+                                res["execs"] += 1
+                                res["complete"] += 1
+                                res["distinct"] += 1
+                                try:
+                                    f = strop_case(text, op, fin, entry, short, trace)
+                                except Exception as e:
+                                    v = as_violation(e)
+                                    if v is None:
+                                        raise
+                                    f = (v.sig, v.what)
+                                if f is not None:
+                                    runner.add_failure(res, f[0], f[1], {"strop": args})
+        res["samples"].append({"str_payloads_with_nontext_opcodes": len(STROP_TEXTS)})
     elif part == "bytes2":
         for a in range(desc["lo"], desc["hi"]):
             run({"entry": "send", "op": R.BINARY, "fin": 1, "ptype": "bytes", "keysrc": "default", "trace": False, "payload": bytes([a]), "ck": "b1"})
@@ -346,6 +414,10 @@ def run_task(desc):
 
 
 def replay(rep):
+    if rep.get("strop"):
+        a = rep["strop"]
+        fail = strop_case(STROP_TEXTS[a[0]], *a[1:])
+        return None if fail is None else {"sig": fail[0], "what": fail[1]}
     if rep.get("resend"):
         fail = resend_case(*rep["resend"])
         return None if fail is None else {"sig": fail[0], "what": fail[1]}
